@@ -124,8 +124,9 @@ def make_policy(spec, kinds_out):
 
 
 def execute(spec, opts, rng, *, client_seg="whole", server_seg="whole", schedule="fifo", extra_policy=None, m3=(), open_plan=None, max_steps=3000,
-            client_cut=None, server_cut=None, client_eof=False, addons=None, early_origin=False):
-    """Run one execution of spec. Returns (driver, info).
+            client_cut=None, server_cut=None, client_eof=False, addons=None, early_origin=False, setup=None):
+    """Run one execution of spec. setup(driver) runs before the driver starts (e.g. to add injected actions).
+    Returns (driver, info).
     Faults: client_cut=o  -> the client sends only the first o bytes, then closes;
             server_cut=(k, o) -> the k-th response written by any origin is truncated to o bytes, then the origin closes;
             client_eof -> client half-closes after its last byte (instead of staying open until teardown)."""
@@ -167,14 +168,14 @@ def execute(spec, opts, rng, *, client_seg="whole", server_seg="whole", schedule
         opts.update(stream_large_bodies=st["stream_large_bodies"], store_streamed_bodies=st["store_streamed_bodies"])
     try:
         return _execute(spec, opts, rng, client_seg, server_seg, schedule, policy, m3, open_plan, max_steps, client_cut, server_cut, client_eof, addons,
-                        responder, early_ok, resp_feats, kinds)
+                        responder, early_ok, resp_feats, kinds, setup)
     finally:
         if st:
             opts.update(stream_large_bodies=None, store_streamed_bodies=False)
 
 
 def _execute(spec, opts, rng, client_seg, server_seg, schedule, policy, m3, open_plan, max_steps, client_cut, server_cut, client_eof, addons,
-             responder, early_ok, resp_feats, kinds):
+             responder, early_ok, resp_feats, kinds, setup=None):
     mode = spec["mode"]
     reqs = spec["reqs"]
     client = sansio.make_client(mode)
@@ -206,6 +207,8 @@ def _execute(spec, opts, rng, client_seg, server_seg, schedule, policy, m3, open
     if client_cut is not None or client_eof:
         segs = segs + [sansio.EOF]
     d.attach_client_peer(sansio.ScriptPeer(segs))
+    if setup is not None:
+        setup(d)
     d.start()
     d.run()
     d.teardown()
